@@ -1,4 +1,5 @@
 #!/bin/bash
+# usage: seeded_matrix.sh [mNN ...]   (no arguments: all)
 # Runs every seeded change against the checks of the properties it breaks; writes seeded/RESULTS.md.
 # Works on a scratch copy of /repo (outside /repo and /verif, removed afterwards) with a private copy of the
 # gocv binary and the current contracts/specs/baseline; neither /repo nor the evidence files are touched.
@@ -15,8 +16,10 @@ out=seeded/RESULTS.md
 tmp="$scratch/RESULTS.md"
 echo "| id | property | check | result | failing obligations (first 3) |" > $tmp
 echo "|---|---|---|---|---|" >> $tmp
+only="$*"
 for d in seeded/m*/; do
   id=$(basename $d)
+  if [ -n "$only" ] && ! echo " $only " | grep -q " $id "; then continue; fi
   props=$(python3 -c "import json;m=json.load(open('$d/meta.json'));print(' '.join(m['property'].replace(',',' ').split()+m.get('also',[])))")
   rm -rf "$scratch/repo"; cp -r "$scratch/base" "$scratch/repo"
   if ! (cd "$scratch/repo" && git apply "/verif/$d/patch.diff" 2>/dev/null); then echo "| $id | $props | - | patch no longer applies | |" >> $tmp; continue; fi
@@ -27,5 +30,11 @@ for d in seeded/m*/; do
     echo "| $id | $props | $p | $res | $obls |" >> $tmp
   done
 done
-cp $tmp $out
+if [ -n "$only" ]; then
+  # partial run: replace the rows of the given ids, keep the others
+  for id in $only; do grep -v "^| $id |" $out > "$scratch/keep.md"; cp "$scratch/keep.md" $out; done
+  tail -n +3 $tmp >> $out
+else
+  cp $tmp $out
+fi
 cat $out
